@@ -22,4 +22,5 @@ def run(ctx):
         ("lz4-3x1", ["-random", n(240, 1500), "-nodes", "3", "-numconns", "1", "-clients", "3", "-workers", "3", "-round", "120", "-compression", "lz4"] + ex, False, "compressed"),
         ("snappy-3x1", ["-random", n(160, 1000), "-nodes", "3", "-numconns", "1", "-clients", "2", "-workers", "3", "-round", "80", "-compression", "snappy"] + ex, False, "compressed"),
     ]
+    plans.append(("gated-d11", ["-scenario", "d11"], "gates", "gated-reprepare-send-fails"))
     rf.run_property(ctx, "C08", plans, scenario_filter=lambda s: "unprepared" in s["outcomes"], nscen=300)
